@@ -118,7 +118,11 @@ def main(tier, seed):
                 fresh_keys = sorted(fresh.__dict__.keys())
                 fresh.load(f)
                 a2 = abs_state(fresh)
-                p1, p2 = pred(m), pred(fresh)
+                p1 = pred(m)
+                try:
+                    p2 = pred(fresh)
+                except Exception as ex:      # noqa - the loaded object is not even a usable model of this kind
+                    p2 = "raised %r" % (ex,)
                 # a second load of the same unchanged file, after the first loaded model has been used (its relevance marks /
                 # propagated labels changed): every load must give the saved state again, independent of earlier loads
                 if kname == "unsup":
@@ -126,7 +130,10 @@ def main(tier, seed):
                 fresh2 = cls(distance="euclidean" if metric != "euclidean" else "manhattan", **({k: v for k, v in kw.items() if k != "pre_computed_distance"}))
                 fresh2.load(f)
                 a3 = abs_state(fresh2)
-                p3 = pred(fresh2)
+                try:
+                    p3 = pred(fresh2)
+                except Exception as ex:      # noqa
+                    p3 = "raised %r" % (ex,)
                 stats["runs"] += 1; stats["kinds"][kname] = stats["kinds"].get(kname, 0) + 1; stats["precomputed"] += int(pre)
                 rep.count_case((kname, metric, pre, X.tobytes()), True)
                 msg = None
